@@ -143,7 +143,7 @@ theorem wf_of_pinv (cfg : Cfg) (f : FrameIn) (vals : Vals) (hr : RegOnly vals) (
       rw [patch_regType]; exact hpair.grp
     refine ⟨hout.symm, hpair.srcReg, hpair.srcNotStk, by show (patchRegDst _).isReg = true; rw [patch_isReg]; exact hpair.dstReg, rfl, hgrp,
       by show groupOf (patchRegDst _).regType < 4; rw [patch_regType]; exact hgl, hpair.srcLt,
-      by show (patchRegDst _).regId < 32; rw [patch_regId]; exact hdl, ?_, ?_⟩
+      by show (patchRegDst _).regId < 32; rw [patch_regId]; exact hdl, ?_, ?_, fun _ => by rw [hsrc]; exact hpair.srcReg⟩
     · show physAt c2 (groupOf (srcAt vals i).regType) (srcAt vals i).regId = some i
       rw [hphys _ _ (by rw [hpair.grp]; exact hgl)]; exact hP.phys i hi'
     · refine ⟨initTok (vals.map varInfoOf) i, ?_, rfl, fun _ => Or.inl ⟨by rw [hsrc]; rfl, by rw [hsrc]; rfl, rfl, fun h => h⟩, ?_⟩
